@@ -3,5 +3,5 @@ Require Import H4.gen.Gen_Atom H4.AtomModel.
 Require Extraction.
 Require ExtrOcamlBasic.
 Extraction "../extract/gen/atom_model.ml" m_init m_step s_init s_step op_ok f_init f_step f_quiescent sd_check
-  h_step atom_of group_of loc_of enc
+  h_step ct_init ct_step ct_check atom_of group_of loc_of enc
   SD_file_id SD_sds_id SD_dim_id SD_id_type SD_id_slot SD_var_index SD_dim_index SD_create_id_base.
